@@ -298,3 +298,72 @@ func VH_C02_client_flow_consumes_each_datagram_exactly() {
 	verifAssert(n2 == HeaderLen+SessionIDLen+DHLen+L+2*MacLen, "C02: the client completes only if the ServerAuth datagram had exactly the announced length")
 	verifAssert(verifAnd(u.writes == 3, u.reads == 2), "C02: three datagrams out, two in")
 }
+
+// The client's handshake driver: it reports success only if the mode-specific
+// exchange reported success, and then the session uses the directional keys
+// the right way round.
+//
+//verif:prop C02
+//verif:replay none
+//verif:stub (*hop.computer/hop/transport.Client).beginPQHiddenHandshake = c02BeginHidden
+//verif:stub (*hop.computer/hop/transport.Client).beginPQDiscoverableHandshake = c02BeginDiscoverable
+//verif:bounds hidden or discoverable mode; the mode-specific exchange succeeds or fails nondeterministically; duplex recorded
+//verif:cover completed;aborted
+func VH_C02_client_driver_succeeds_only_if_the_exchange_did() { c02Driver("C02") }
+
+//verif:prop C01
+//verif:replay none
+//verif:stub (*hop.computer/hop/transport.Client).beginPQHiddenHandshake = c02BeginHidden
+//verif:stub (*hop.computer/hop/transport.Client).beginPQDiscoverableHandshake = c02BeginDiscoverable
+//verif:bounds as VH_C02_client_driver_succeeds_only_if_the_exchange_did
+//verif:cover completed;aborted
+func VH_C01_client_reports_success_only_after_server_proved_its_key() { c02Driver("C01") }
+
+var c02Exchange struct {
+	hiddenCalls, discCalls int
+	ok                     bool
+}
+
+func c02BeginHidden(c *Client, buf []byte) error {
+	c02Exchange.hiddenCalls++
+	if c02Exchange.ok {
+		return nil
+	}
+	return ErrInvalidMessage
+}
+
+func c02BeginDiscoverable(c *Client, buf []byte) error {
+	c02Exchange.discCalls++
+	if c02Exchange.ok {
+		return nil
+	}
+	return ErrInvalidMessage
+}
+
+func c02Driver(prop string) {
+	hsReset()
+	c02Exchange.hiddenCalls, c02Exchange.discCalls = 0, 0
+	c02Exchange.ok = verifBool("exchange-succeeds")
+	hidden := verifBool("hidden-mode")
+	u := &sessUDP{}
+	c := &Client{underlyingConn: u, dialAddr: sessAddr4(10, 0, 0, 2, 77), closeDone: make(chan struct{})}
+	c.config.Exchanger = &hsExch{}
+	c.config.Leaf = &certs.Certificate{}
+	c.config.Verify.InsecureSkipVerify = true
+	if hidden {
+		var k keys.KEMPublicKey = &hsKemPub{b: verifFreshBytes("server-kem", KemKeyLen)}
+		c.config.ServerKEMKey = &k
+	}
+	c.state.Store(clientStateHandshaking)
+	err := c.clientHandshakeLocked()
+	if err != nil {
+		verifCover("aborted")
+		verifAssert(c.ss == nil || c.ss.handle == nil, prop+": a failed handshake leaves no usable session")
+		return
+	}
+	verifCover("completed")
+	verifAssert(c02Exchange.ok, prop+": the client reports a completed handshake only if the message exchange itself succeeded (every reader accepted)")
+	verifAssert(verifAnd(c02Exchange.hiddenCalls == 1, c02Exchange.discCalls == 0) == hidden, prop+": exactly the configured mode's exchange ran")
+	verifAssert(c.ss != nil && c.ss.readKey == &c.ss.serverToClientKey && c.ss.writeKey == &c.ss.clientToServerKey, prop+": the client reads with the server-to-client key and writes with the client-to-server key")
+	verifAssert(c.ss.isHiddenHS == hidden, prop+": the session remembers its handshake mode")
+}
